@@ -18,6 +18,12 @@ fn xid() -> WId {
     WId { node_id: "x".into(), generation: 0, addr: addr(9500) }
 }
 
+/// Same member under a 58-byte node id: its node header alone takes about 95 bytes, so that the smallest admissible
+/// budgets (100..) cut the delta right after the header, before the first entry.
+fn xid_long() -> WId {
+    WId { node_id: format!("x-{}", "long-node-id-".repeat(4)) + "abcd", generation: 0, addr: addr(9500) }
+}
+
 /// Deterministic family of entry layouts for a copy at (gc, mv).
 /// Entries have versions <= mv; tombstones only above the watermark (a consistent copy).
 pub fn layouts(gc: u64, mv: u64, n: usize) -> Vec<Vec<Kv>> {
@@ -72,8 +78,8 @@ pub struct PairOut {
 
 /// One (sender copy, receiver copy) pair: the receiver's real SYN, the sender's real SYN-ACK,
 /// the receiver's processing of it; then every truncation of the sender's delta.
-fn run_pair(s: (u64, u64), r: (u64, u64), ls: &[Kv], lr: &[Kv], out: &mut PairOut) {
-    let x = xid();
+fn run_pair(s: (u64, u64), r: (u64, u64), ls: &[Kv], lr: &[Kv], long_id: bool, out: &mut PairOut) {
+    let x = if long_id { xid_long() } else { xid() };
     let xc = cid(&x);
     let who = format!("sender (gc {}, mv {}) {} entries / receiver (gc {}, mv {}) {} entries", s.0, s.1, ls.len(), r.0, r.1, lr.len());
     let mut sender = mk_node(simple_id("s", 9501), &NodeOpts::default());
@@ -98,7 +104,7 @@ fn run_pair(s: (u64, u64), r: (u64, u64), ls: &[Kv], lr: &[Kv], out: &mut PairOu
     }
     let (s, r) = ((sc.0, sc.1), (rc.0, rc.1));
     out.c.inc("pairs");
-    out.hashes.push(mix3(mix(s.0, s.1), mix(r.0, r.1), mix(hash_of(&sc.2), hash_of(&rc.2))));
+    out.hashes.push(mix3(mix(s.0, s.1), mix(r.0, r.1 + ((long_id as u64) << 32)), mix(hash_of(&sc.2), hash_of(&rc.2))));
     let ahead = s.1 > r.1;
     let reset_expected = ahead && r.0 < s.0 && r.1 < s.0;
     // receiver's real SYN -> sender's real SYN-ACK
@@ -148,7 +154,9 @@ fn run_pair(s: (u64, u64), r: (u64, u64), ls: &[Kv], lr: &[Kv], out: &mut PairOu
             codec::encode_digest(codec::msg_digest(&w))
         };
         let mut seen = std::collections::HashSet::new();
-        for budget in [100usize, 140, 180, 215, 250, 290, 330, 400] {
+        // every truncation point: budgets from the smallest admissible one (100) up to the whole delta (identical
+        // streams are delivered once); under the long node id this includes the cut right after the member's header
+        for budget in (100usize..=130).chain([140, 160, 180, 215, 230, 250, 270, 290, 330, 400, 470]) {
             if let Ok(Ok(stream)) = catch(|| sender.cc.verif_compute_delta(&digest_bytes, budget)) {
                 if seen.insert(stream.clone()) {
                     let mut ack = vec![];
@@ -172,6 +180,12 @@ fn run_pair(s: (u64, u64), r: (u64, u64), ls: &[Kv], lr: &[Kv], out: &mut PairOu
             continue;
         };
         out.c.inc("deliveries");
+        if n.kvs.is_empty() && !n.had_set_max {
+            out.c.inc("header_only_node_deltas_delivered");
+            if reset_expected {
+                out.c.inc("header_only_reset_deltas_delivered");
+            }
+        }
         if k > 0 {
             out.c.inc("truncated_deliveries");
         }
@@ -249,7 +263,8 @@ pub fn run_c14_scope(args: &Args, deadline: &Deadline) -> (PairOut, u64, bool) {
         let mut out = PairOut { findings: vec![], c: Counters::default(), hashes: vec![] };
         for ls in layouts(s.0, s.1, nls) {
             for lr in layouts(r.0, r.1, nlr) {
-                run_pair(s, r, &ls, &lr, &mut out);
+                run_pair(s, r, &ls, &lr, false, &mut out);
+                run_pair(s, r, &ls, &lr, true, &mut out);
             }
         }
         Some(out)
